@@ -57,17 +57,17 @@ fn main() {
     // (1) infinite groups: (name, gens, relators, kmax quick, kmax thorough)
     let mut inf: Vec<(&str, usize, Vec<Vec<isize>>, usize, usize)> = vec![
         ("F0", 0, vec![], 2, 3),
-        ("F1", 1, vec![], 6, 10),
-        ("F2", 2, vec![], 5, 7),
+        ("F1", 1, vec![], 8, 12),
+        ("F2", 2, vec![], 6, 7),
         ("F3", 3, vec![], 3, 4),
-        ("Z^2", 2, vec![comm(1, 2)], 6, 10),
-        ("Z^3", 3, vec![comm(1, 2), comm(1, 3), comm(2, 3)], 4, 7),
+        ("Z^2", 2, vec![comm(1, 2)], 8, 12),
+        ("Z^3", 3, vec![comm(1, 2), comm(1, 3), comm(2, 3)], 5, 8),
         ("surface-genus-2", 4, vec![[comm(1, 2), comm(3, 4)].concat()], 3, 4),
-        ("klein-bottle", 2, vec![vec![1, 2, -1, 2]], 5, 7),
+        ("klein-bottle", 2, vec![vec![1, 2, -1, 2]], 6, 8),
         ("nonorientable-genus-3", 3, vec![vec![1, 1, 2, 2, 3, 3]], 4, 5),
-        ("triangle-2-3-7", 2, vec![pw(&[1], 2), pw(&[2], 3), pw(&[1, 2], 7)], 7, 9),
-        ("triangle-2-4-5", 2, vec![pw(&[1], 2), pw(&[2], 4), pw(&[1, 2], 5)], 6, 8),
-        ("triangle-2-3-6", 2, vec![pw(&[1], 2), pw(&[2], 3), pw(&[1, 2], 6)], 6, 8),
+        ("triangle-2-3-7", 2, vec![pw(&[1], 2), pw(&[2], 3), pw(&[1, 2], 7)], 8, 14),
+        ("triangle-2-4-5", 2, vec![pw(&[1], 2), pw(&[2], 4), pw(&[1, 2], 5)], 7, 10),
+        ("triangle-2-3-6", 2, vec![pw(&[1], 2), pw(&[2], 3), pw(&[1, 2], 6)], 7, 9),
         (
             "coxeter-2-3-7",
             3,
@@ -75,10 +75,10 @@ fn main() {
             4,
             7,
         ),
-        ("modular-Z2*Z3", 2, vec![pw(&[1], 2), pw(&[2], 3)], 6, 8),
-        ("infinite-dihedral", 2, vec![pw(&[1], 2), pw(&[2], 2)], 6, 9),
-        ("BS-1-2", 2, vec![vec![1, 2, -1, -2, -2]], 5, 7),
-        ("trefoil", 2, vec![vec![1, 2, 1, -2, -1, -2]], 5, 6),
+        ("modular-Z2*Z3", 2, vec![pw(&[1], 2), pw(&[2], 3)], 7, 10),
+        ("infinite-dihedral", 2, vec![pw(&[1], 2), pw(&[2], 2)], 8, 12),
+        ("BS-1-2", 2, vec![vec![1, 2, -1, -2, -2]], 6, 8),
+        ("trefoil", 2, vec![vec![1, 2, 1, -2, -1, -2]], 6, 7),
         // relators that are not cyclically reduced / reduce on construction
         ("F2-conj-relator", 2, vec![vec![1, 2, -1]], 5, 7),
         ("Z-padded", 2, vec![vec![1, -1, 2, 2, -2]], 5, 7),
@@ -95,7 +95,7 @@ fn main() {
         if !th && !g.quick {
             continue;
         }
-        let kmax = (if th { 6 } else { 4 }).min(g.order.max(1));
+        let kmax = (if th { 7 } else { 5 }).min(g.order.max(1));
         for k in 1..=kmax {
             case(&mut ctx, &g.name, g.nr_gens, &g.rels, k, "finite");
         }
